@@ -53,7 +53,8 @@ def toFlagDef (f : FlagS) : FlagDef :=
 def toPFlag (f : FlagS) : Spec.Pflag.PFlag :=
   { name := f.name.toList, short := f.short.toList.head?,
     kind := if f.kind == "bool" then .bool else if f.kind == "count" then .count
-            else if f.kind == "stringSlice" then .stringSlice else if f.kind == "optString" then .optString else .string }
+            else if f.kind == "stringSlice" then .stringSlice else if f.kind == "optString" then .optString
+            else if f.kind == "stringArray" then .stringArray else if f.kind == "ipNetSlice" then .ipNetSlice else .string }
 
 def toTCmd (c : CmdS) : TCmd :=
   let par : Option Nat := if c.parent < 0 then none else some (Int.toNat c.parent)
@@ -221,7 +222,7 @@ def runParseOp (inp out : Json) : Json :=
         | none => []
       let states : List FlagState := vis.map (fun f =>
         { fdef := toFlagDef f, hidden := f.hidden, deprecated := f.deprecated, shortDeprecated := f.shortDeprecated,
-          changed := changed f.name, repeatable := f.kind == "stringSlice" || f.kind == "count", groups := groupsOf f })
+          changed := changed f.name, repeatable := f.kind == "stringSlice" || f.kind == "count" || f.kind == "stringArray" || f.kind == "ipNetSlice", groups := groupsOf f })
       let expected := ((states.filter (offered hiddenEnv states)).map (fun st =>
         let n := "--" ++ String.ofList st.fdef.name
         match n.splitOn "." with
@@ -233,6 +234,51 @@ def runParseOp (inp out : Json) : Json :=
       if !(values.any (fun v => jstr (jget v "tag") == "longhand flags")) then none
       else if srt expected == srt got then none
       else some s!"{words}: rule model offers {srt expected}, real offers {srt got}"
+  -- C07 rule model inside a shorthand series (`-ab<TAB>`): the letters offered next
+  let chainDiff : Option String :=
+    let subNames : List String := (cmds.toList.drop 1).flatMap (fun c => c.name :: c.aliases)
+    let descentRisk : Bool :=
+      (words.dropLast.foldl (fun (acc : Bool × Bool) w =>
+        if subNames.contains w then (acc.1, acc.2 || acc.1) else (true, acc.2)) (false, false)).2
+    let tcr := jget out "typedCurRun"
+    let letters := cur.toList.drop 1
+    if !(cur.startsWith "-") || cur.startsWith "--" || letters.isEmpty || !typedOk || descentRisk then none else
+    if tcr.isNull || jstr (jget tcr "err") != "" || !jbool tcr "ran" then none else
+    -- the program itself took the word for flags (not for a positional after `--` or after a first positional)
+    if ((jarr tcr "args").toList.map jstr).contains cur then none else
+    let rc := jnat tcr "cmd"
+    match cmds[rc]? with
+    | none => none
+    | some rcs =>
+      if rcs.noFlagParse then none else
+      let vis := flagsVisible cmds rc
+      -- every letter typed so far is a flag without a mandatory argument
+      let open_ := letters.all (fun ch => match vis.find? (fun f => f.short == String.singleton ch) with
+        | some f => f.kind == "bool" || f.kind == "count" || f.kind == "optString"
+        | none => false)
+      if !open_ then none else
+      let changed (n : String) : Bool := !(jget (jget tcr "flags") n).isNull
+      let groupsOf (f : FlagS) : List (List Str) :=
+        match flagOwner cmds rc f.name with
+        | some o =>
+          let ocs := (cmds[o]?).getD default
+          f.mutex.filterMap (fun g =>
+            let members := ocs.flags.filter (fun x => x.mutex.contains g)
+            if members.length > 1 then some (members.map (fun x => x.name.toList)) else none)
+        | none => []
+      let states : List (FlagS × FlagState) := vis.map (fun f =>
+        (f, { fdef := toFlagDef f, hidden := f.hidden, deprecated := f.deprecated, shortDeprecated := f.shortDeprecated,
+              changed := changed f.name, repeatable := f.kind == "stringSlice" || f.kind == "count" || f.kind == "stringArray" || f.kind == "ipNetSlice",
+              groups := groupsOf f }))
+      let all := states.map (·.2)
+      let expected := (states.filter (fun (f, st) => offered hiddenEnv all st && f.short != "" && !f.shortDeprecated)).map (fun (f, _) => cur ++ f.short)
+      let hasH := vis.any (fun f => f.short == "h")
+      let got := ((values.filter (fun v => jstr (jget v "tag") == "shorthand flags")).map (fun v => jstr (jget v "value"))).filter (fun v => hasH || !v.endsWith "h")
+      let srt (l : List String) := (sortBy (fun a b => Str.lt a.toList b.toList) l.eraseDups)
+      if !(values.any (fun v => jstr (jget v "tag") == "shorthand flags")) && expected.isEmpty then none
+      else if !(values.any (fun v => let t := jstr (jget v "tag"); t == "shorthand flags")) && !(values.isEmpty) then none   -- not a flag-name slot (a value is being completed)
+      else if srt expected == srt got then none
+      else some s!"{words}: series rule model offers {srt expected}, real offers {srt got}"
   -- C01: the slot the traverse model picks vs the markers the real code serves
   let slotDiff : Option String :=
     if panic != "" then none else
@@ -269,6 +315,7 @@ def runParseOp (inp out : Json) : Json :=
   let crash : List AFail := if panic != "" && !panic.startsWith "execute:" then
     [{ prop := "C18", code := "panic:traverse", detail := panic }, { prop := "C01", code := "panic", detail := panic }] else []
   let fails := crash ++ c01.take 2 ++ c01b ++ c07.take 2 ++ c07b.take 1 ++ subFails.take 1
+  let ruleDiff := match ruleDiff with | some d => some d | none => chainDiff
   Json.mkObj [("same", Json.bool (ruleDiff.isNone && slotDiff.isNone)), ("diff", Json.str ((ruleDiff.getD "") ++ (slotDiff.getD ""))),
               -- C06: where the model says the parser's error is shown, the real answer carries a message
               ("aspects", Json.mkObj [("C01", Json.bool slotDiff.isNone), ("C07", Json.bool ruleDiff.isNone),
